@@ -64,6 +64,8 @@ def select(tier, seed):
             continue
         if len(sh.groups) > (5 if tier == 'thorough' else 4):
             continue
+        if len(sh.slots) > 9:
+            continue
         out.append(sh)
     loops = [s for s in out if 'for' in family.canonical(s) or 'while' in family.canonical(s)]
     ctrl = [s for s in out if s not in loops]
@@ -100,8 +102,35 @@ def custom(tier, seed):
             qs.append(Query(sh.name, src(sh), 'check', 'main', timeout, per_path=30, meta={'shape': sh.name}, label='S'))
         for sh in shapes[:3]:
             qs.append(Query(sh.name + '__twin', src(sh), 'check_twin', 'twin', 60, meta={'shape': sh.name}))
-        runner.run_queries(PID, qs)
+        # evaluator / project level histories (E)
+        import os
+        from props.simple import copy_fn
+        HE = os.path.join(runner.VERIF, 'harness', 'h_c04e.py')
+        root = os.path.join(runner.WORK, PID, 'proj')
+        os.environ['VERIF_C04_ROOT'] = root
+        he = runner.load_module(HE, 'h_c04e_setup')
+        he.materialise(root)
+        se = open(HE).read()
+        eq = []
+        for a in range(he.NREQ):
+            new = 'hist_a%02d' % a
+            eq.append(Query(new, se + '\n\n' + copy_fn(se, 'check', new, 'a == %d' % a + (' and n == 2' if tier == 'quick' and a % 3 else '')),
+                            new, 'main', 300, per_path=60, meta={'h': 'e'}, label='E'))
+        eq.append(Query('hist__twin', se + '\n\n' + copy_fn(se, 'check', 'hist__twin', 'n == 2 and a == 0 and b == 0', twin=True),
+                        'hist__twin', 'twin', 60, meta={'h': 'e'}))
+
+        def replay_e(q, args, kwargs):
+            h2 = runner.load_module(HE, 'h_c04e_native')
+            h2.materialise(root)
+            n, a, b, c = args
+            hist = [a, b, c][:n]
+            bad = h2.problems(hist)
+            if not bad:
+                return {'violated': False}
+            return {'violated': True, 'known': None, 'what': bad[0], 'replay': {'history': hist}}
+        runner.run_queries(PID, qs + eq)
         rep.absorb(qs, replay)
+        rep.absorb(eq, replay_e)
         # natively, through the public API: lint (all reads of one analysis) vs fresh queries, canonical namings
         n = 0
         for sh in shapes:
@@ -114,10 +143,13 @@ def custom(tier, seed):
                                       {'shape': sh.name, 'pattern': [part[s] for s in sh.slots], 'order': sh.reads()})
         rep.validation['lint_vs_fresh_native_cases'] = n
         rep.functions = ['supp.nast.extract', 'Flow.names/parent_names (memo slots)', 'LoopFlow.names/_resolving/resolving',
-                         'Flow.names_at', 'util.cached_property', 'MultiName', 'linter.lint (native cross-check)']
+                         'Flow.names_at', 'util.cached_property', 'MultiName', 'linter.lint (native cross-check)',
+                         'evaluator level (E): Project._module_cache, SourceModule.scope, ClassObject._attrs/bases, InstanceValue._attrs/_assigned, '
+                         'context_property memos, ImportedName._ref, MultiValue._rvalues through assist/location/lint']
         rep.bounds = ['%d shapes with 2..%d reads; every permutation of the reads as query history (solver-chosen, enumerated: E); '
                       'identifiers symbolic (S)' % (len(shapes), 4 if tier == 'thorough' else 3),
-                      'project-level request histories belong to C09']
+                      'evaluator level: every history of 2 (and, for a third of the first requests in quick, 3) requests out of 12 '
+                      '(instance / class / module attribute completion and definition, star-import lint) on one Project without edits; histories with edits are C09']
         rep.assumptions = ['same stubs as C01-C03 (symbolic containers, UndefinedName marker, find_id_loc, builtin table)',
                            'oracle: the same real code on a fresh analysis state (pure differential)']
         for q in qs[:6]:
@@ -134,6 +166,20 @@ def run(tier, seed):
 
 
 def replay_file(obj):
+    if 'history' in obj:
+        import os
+        HE = os.path.join(runner.VERIF, 'harness', 'h_c04e.py')
+        root = os.path.join(runner.WORK, PID, 'proj')
+        os.environ['VERIF_C04_ROOT'] = root
+        he = runner.load_module(HE, 'h_c04e_native')
+        he.materialise(root)
+        bad = he.problems(obj['history'])
+        if bad:
+            print('VIOLATION property=%s replay=given' % PID)
+            print('  ' + bad[0])
+            return 1
+        print('not reproduced')
+        return 0
     shape = tharness.shape_by_name(obj['shape'])
     cls = dict(zip(shape.slots, obj['pattern']))
     res = tharness.native_order_case(shape, cls, [], obj['order'])
